@@ -674,6 +674,108 @@ def facts_imply_empty(facts, seq_txt) -> bool:
     return any(not isinstance(e, ast.BoolOp) and (min_len(e, not pol, seq_txt) or 0) >= 1 for e, pol in _fact_exprs(facts))
 
 
+
+
+
+def fold_consts(prog, module, node, cls=None):
+    """A copy of the function body in which every read of a module-level (or class-level) string constant is replaced
+    by the string itself: `SEP = " -> "` ... `label.split(SEP)` is looked at as `label.split(" -> ")`.  Names assigned
+    inside the function and parameters are left alone."""
+    import copy
+    local = {a.arg for a in ast.walk(node) if isinstance(a, ast.arg)}
+    for st in ast.walk(node):
+        if isinstance(st, ast.Name) and isinstance(st.ctx, (ast.Store, ast.Del)):
+            local.add(st.id)
+    mod = prog.modules.get(module)
+
+    def value_of(name):
+        if name in local or mod is None:
+            return None
+        ent = prog.lookup(module, name)
+        n_ = getattr(ent, "node", None)
+        if type(ent).__name__ == "ConstDef" and isinstance(n_, ast.Constant) and isinstance(n_.value, str):
+            return n_.value
+        return None
+
+    class R(ast.NodeTransformer):
+        def visit_Name(self, n):
+            if isinstance(n.ctx, ast.Load):
+                v = value_of(n.id)
+                if v is not None:
+                    return ast.copy_location(ast.Constant(value=v), n)
+            return n
+
+        def visit_Attribute(self, n):
+            self.generic_visit(n)
+            if isinstance(n.ctx, ast.Load) and isinstance(n.value, ast.Name) and cls is not None and \
+                    n.value.id in ("self", "cls", cls.name):
+                for q in cls.mro:
+                    c = prog.classes.get(q)
+                    a = c.class_attrs.get(n.attr) if c is not None else None
+                    if isinstance(a, ast.Constant) and isinstance(a.value, str):
+                        return ast.copy_location(ast.Constant(value=a.value), n)
+            return n
+    return ast.fix_missing_locations(R().visit(copy.deepcopy(node)))
+
+
+def inline_locals(fn_node, expr, depth=2):
+    """the expression itself and, for every local it reads, the expressions assigned to that local in the function (to
+    `depth` levels): `name = a + SUFFIX + str(k); Variable(name)` is looked at as `Variable(a + SUFFIX + str(k))`"""
+    out, frontier, seen = [expr], [expr], set()
+    for _ in range(depth):
+        names = {n.id for e in frontier for n in ast.walk(e) if isinstance(n, ast.Name) and isinstance(n.ctx, ast.Load)} - seen
+        seen |= names
+        frontier = []
+        for st in ast.walk(fn_node):
+            if isinstance(st, ast.Assign) and any(isinstance(t, ast.Name) and t.id in names for t in st.targets):
+                frontier.append(st.value)
+            elif isinstance(st, (ast.AnnAssign, ast.NamedExpr)) and st.value is not None and \
+                    isinstance(st.target, ast.Name) and st.target.id in names:
+                frontier.append(st.value)
+        out.extend(frontier)
+    return out
+
+
+def resolved_facts(fn_nodes, facts):
+    """(expression, polarity) of every branch fact, where a fact that is a bare local (`if is_eps:`) is replaced by the
+    expression assigned to that local when it is assigned exactly once in the given function bodies."""
+    single = {}
+    for fn in fn_nodes:
+        for st in ast.walk(fn):
+            tgt, val = None, None
+            if isinstance(st, ast.Assign) and len(st.targets) == 1 and isinstance(st.targets[0], ast.Name):
+                tgt, val = st.targets[0].id, st.value
+            elif isinstance(st, (ast.AnnAssign, ast.NamedExpr)) and isinstance(st.target, ast.Name) and st.value is not None:
+                tgt, val = st.target.id, st.value
+            if tgt is not None:
+                single.setdefault(tgt, []).append(val)
+    for e, pol in _fact_exprs(facts):
+        hops = 0
+        while hops < 3:
+            if isinstance(e, ast.UnaryOp) and isinstance(e.op, ast.Not):
+                e, pol = e.operand, not pol
+            elif isinstance(e, ast.Name) and len(single.get(e.id, [])) == 1:
+                e = single[e.id][0]
+            else:
+                break
+            hops += 1
+        yield e, pol
+
+
+def excludes_value(fn_nodes, facts, is_value) -> bool:
+    """some branch fact says `<x> != <value>` (any spelling: `!=` true, `==` false, `not (.. == ..)`, through a local flag),
+    where `is_value(node)` recognises the value's expression"""
+    for e, pol in resolved_facts(fn_nodes, facts):
+        if isinstance(e, ast.Compare) and len(e.ops) == 1 and (is_value(e.left) or is_value(e.comparators[0])):
+            if (isinstance(e.ops[0], (ast.NotEq, ast.IsNot)) and pol) or (isinstance(e.ops[0], (ast.Eq, ast.Is)) and not pol):
+                return True
+        if isinstance(e, ast.Call) and getattr(e.func, "id", None) == "isinstance" and len(e.args) == 2 and not pol and \
+                any(is_value(ast.Call(func=t_, args=[], keywords=[])) for t_ in
+                    (e.args[1].elts if isinstance(e.args[1], ast.Tuple) else [e.args[1]])):
+            return True
+    return False
+
+
 def element_of_field_or_copy(summ: Summary, av: Optional[AV], field_loc) -> bool:
     """The value can be (identity) an element of the collection stored at field_loc, or of a copy of it made in the
     closure (`.copy()`, set(..), list(..), sorted(..) of the field)."""
